@@ -1,0 +1,29 @@
+//go:build !verif
+
+package derive
+
+import "go/types"
+
+// Verification hooks are compiled out without the verif build tag.
+
+type vm = map[string]interface{}
+
+const vOn = false
+
+func vtrace(ev string, kv map[string]interface{}) {}
+
+func verr(err error) string { return "" }
+
+func vkey(typs []types.Type) []string { return nil }
+
+func vmatches(tm *typesMap, typs []types.Type) []string { return nil }
+
+func vhad(tm *typesMap, name string) interface{} { return nil }
+
+func vset(m map[string]struct{}) []string { return nil }
+
+func vcalls(cs []*call) []interface{} { return nil }
+
+func vfiles(fileInfos []*fileInfo) []interface{} { return nil }
+
+func vplugins(ps []Plugin) []interface{} { return nil }
